@@ -8,6 +8,8 @@ package memberlist
 
 import (
 	"bytes"
+
+	"github.com/google/btree"
 )
 
 // VerifEncryptPayload wraps encryptPayload.
@@ -21,3 +23,34 @@ func VerifEncryptPayload(vsn uint8, key, msg, data []byte) ([]byte, error) {
 func VerifDecryptPayload(keys [][]byte, msg, data []byte) ([]byte, error) {
 	return decryptPayload(keys, msg, data)
 }
+
+// VerifQItem is one entry of a TransmitLimitedQueue snapshot.
+type VerifQItem struct {
+	Transmits int
+	MsgLen    int64
+	ID        int64
+	Name      string
+	B         Broadcast
+}
+
+// VerifQueueSnapshot returns the queue's tree in ascending Less order, the id
+// generator, and the keys of the name index together with the id each maps to.
+func VerifQueueSnapshot(q *TransmitLimitedQueue) (items []VerifQItem, idGen int64, names map[string]int64) {
+	q.mu.Lock()
+	defer q.mu.Unlock()
+	names = make(map[string]int64)
+	for k, v := range q.tm {
+		names[k] = v.id
+	}
+	if q.tq != nil {
+		q.tq.Ascend(func(i btree.Item) bool {
+			cur := i.(*limitedBroadcast)
+			items = append(items, VerifQItem{cur.transmits, cur.msgLen, cur.id, cur.name, cur.b})
+			return true
+		})
+	}
+	return items, q.idGen, names
+}
+
+// VerifRetransmitLimit wraps retransmitLimit.
+func VerifRetransmitLimit(mult, n int) int { return retransmitLimit(mult, n) }
